@@ -181,6 +181,12 @@ func appendGrows(st *ssa.Store) bool {
 }
 
 func runC02(p *Prog, r *Report) {
+	// R12: the rotation is not restarted behind the user's back: the rebalancer re-applies weights to the balancer only after changing one (shared with C10.R3)
+	r.Borrow(p, runC10, map[string]string{"C10.R3": "C02.R12"}, func(o Ob) bool {
+		return strings.Contains(o.Construct, "applies weights only after changing") || strings.Contains(o.Construct, "returns true exactly when it applied weights")
+	})
+	// R11: an accepted update of a tracked server's weight is remembered by the rebalancer on every path
+	checkConfiguredWeightFollows(p, r, "C02.R11")
 	// R10: the error handler that answers for an empty / all-zero pool is non-nil whatever options were given
 	checkErrHandlerDefaulted(p, r, "C02.R10", map[string]bool{"roundrobin": true})
 	pools := c02Pools(p, r)
@@ -972,6 +978,7 @@ func c02Ownership(p *Prog, r *Report, pools []poolInfo) {
 func mutantsC02() []Mutant {
 	rr, rb := "roundrobin/rr.go", "roundrobin/rebalancer.go"
 	return []Mutant{
+		{Name: "rb-remembered-weight-only-when-unboosted", File: "roundrobin/rebalancer.go", Old: "\t\ts.origWeight = weight\n\t\treturn nil\n", New: "\t\tif s.curWeight == s.origWeight {\n\t\t\ts.origWeight = weight\n\t\t}\n\t\treturn nil\n", Expect: "C02.R11"},
 		{Name: "rr-errhandler-default-before-options", File: "roundrobin/rr.go", Old: "\tif rr.errHandler == nil {\n\t\trr.errHandler = utils.DefaultHandler\n\t}\n", New: "", More: []Edit{{"roundrobin/rr.go", "\t\tlog: &utils.NoopLogger{},\n\t}\n\tfor _, o := range opts {\n\t\tif err := o(rr)", "\t\tlog: &utils.NoopLogger{},\n\n\t\terrHandler: utils.DefaultHandler,\n\t}\n\tfor _, o := range opts {\n\t\tif err := o(rr)"}}, Expect: "C02.R10"},
 		{Name: "rr-upsert-unlocks-between-lookup-and-append", File: "roundrobin/rr.go", Old: "\tsrv := &server{url: utils.CopyURL(u)}\n", New: "\tr.mutex.Unlock()\n\tsrv := &server{url: utils.CopyURL(u)}\n\tr.mutex.Lock()\n", Expect: "C02.R1"},
 		{Name: "rr-upsert-found-falls-through", File: rr, Old: "\t\tr.resetState()\n\t\treturn nil\n\t}\n\n\tsrv := &server{url: utils.CopyURL(u)}", New: "\t\tr.resetState()\n\t}\n\n\tsrv := &server{url: utils.CopyURL(u)}", Expect: "C02.R1"},
@@ -1088,4 +1095,61 @@ func atInstr(p *Prog, in ssa.Instruction) string {
 		return ""
 	}
 	return " (at " + p.InstrPos(in) + ")"
+}
+
+// checkConfiguredWeightFollows: the rebalancer remembers, per server, the weight its user configured (it
+// restores that weight whenever the pool changes). When a server that is already tracked is upserted again,
+// the remembered weight is replaced by the new one on EVERY path of the lookup-found edge — a guard in front
+// of the store ("only when positive", "only while not boosted") makes an accepted update (weight 0 to drain a
+// server, a new weight while the server is boosted) be undone by the next reset.
+func checkConfiguredWeightFollows(p *Prog, r *Report, rule string) {
+	rec := namedRole(p, "roundrobin", "rbServer")
+	if rec == nil {
+		r.Anchor(rule, "roundrobin.rbServer", "record type not found")
+		return
+	}
+	n := 0
+	for _, fn := range p.PkgFuncs("roundrobin") {
+		lts := lookupTests(fn)
+		if len(lts) == 0 {
+			continue
+		}
+		for _, b := range fn.Blocks {
+			for _, in := range b.Instrs {
+				st, ok := in.(*ssa.Store)
+				if !ok {
+					continue
+				}
+				nt, f, base, ok := fieldOf(st.Addr)
+				if !ok || nt != rec || !isPlainBasic(types.Int)(structFieldType(rec, f)) {
+					continue
+				}
+				if _, fresh := base.(*ssa.Alloc); fresh {
+					continue
+				}
+				if _, isParam := stripConv(st.Val).(*ssa.Parameter); !isParam {
+					continue
+				}
+				n++
+				r.Fn(FName(fn))
+				isSt := func(x ssa.Instruction) bool { return x == ssa.Instruction(st) }
+				var bad *ssa.Return
+				for _, lt := range lts {
+					for _, e := range lt.found {
+						onlyFound := func(x Edge) bool { return !(x.B == e.B && x.K == 1-e.K) }
+						ifi := e.B.Instrs[len(e.B.Instrs)-1]
+						if ret := ReturnReachableAvoiding(fn, ifi, isSt, onlyFound); ret != nil {
+							if isNil, known := returnErrIsNil(ret, errorResultIndex(fn.Signature)); !known || isNil {
+								bad = ret
+							}
+						}
+					}
+				}
+				r.Paths++
+				r.Check(bad == nil, rule, "roundrobin.rbServer."+f+": a repeated upsert replaces the remembered weight, in "+FName(fn), p.InstrPos(st), "on the lookup-found edge every successful return passes "+f+" := <weight argument>",
+					"on the lookup-found edge a successful return is reachable without storing the new weight"+posOf(p, bad)+": the upsert is reported as done, but the next reset() re-applies the old remembered weight to the balancer (a server drained with weight 0 comes back, a re-weighted server keeps its old share)")
+			}
+		}
+	}
+	r.Floor(rule, n, 1, "stores of a weight argument into an existing rebalancer record")
 }
